@@ -115,6 +115,18 @@ func runC12(ctx *h.Ctx) int {
 			k.Count("without_poryswitch", 1)
 			return
 		}
+		if k.R.IntN(6) == 0 {
+			// constants spelled like case names, switch keys and switch values: none of those is a position
+			// where constants are substituted
+			var cs []spec.Item
+			for _, n := range []string{"RUBY", "SAPPHIRE", "EMERALD", "GAME", "LANG", "OTHER"} {
+				if k.R.IntN(2) == 0 {
+					cs = append(cs, &spec.Const{ID: prog.NewID(), Name: n, Value: []string{[]string{"0", "1", "EMERALD", "_"}[k.R.IntN(4)]}})
+				}
+			}
+			prog.Items = append(cs, prog.Items...)
+			k.Count("files_with_constants_named_like_cases", 1)
+		}
 		rp, rerr := spec.Resolve(prog, prog.Switches)
 		pr := layoutOf(k, prog, 0.15)
 		k.SetSource(pr.Src)
